@@ -100,7 +100,12 @@ fn side_json(b: &OrderBook, sc: Scale, ints: bool) -> Value {
 }
 
 /// Pattern B projection (exact decimals as strings, compared in Rust against TLC's fractions).
+/// A panic of an accessor (e.g. a division by zero in the volume weighted mid) is data.
 fn project(b: &OrderBook, sc: Scale) -> Value {
+    catch(|| project_inner(b, sc)).unwrap_or_else(|p| json!({"panic": format!("accessor panicked: {p}")}))
+}
+
+fn project_inner(b: &OrderBook, sc: Scale) -> Value {
     let opt = |d: Option<Decimal>| d.map(|x| Value::from(sc.price_out(x).to_string())).unwrap_or(Value::from("none"));
     let mut v = side_json(b, sc, false);
     let o = v.as_object_mut().unwrap();
@@ -114,6 +119,10 @@ fn project(b: &OrderBook, sc: Scale) -> Value {
 
 /// Pattern A projection (integers in spec units; mid2 = 2*mid, vwm = floor(1000*vwmid), -1 = None).
 fn project_trace(b: &OrderBook, sc: Scale) -> Value {
+    catch(|| project_trace_inner(b, sc)).unwrap_or_else(|p| json!({"panic": format!("accessor panicked: {p}")}))
+}
+
+fn project_trace_inner(b: &OrderBook, sc: Scale) -> Value {
     let mut v = side_json(b, sc, true);
     let o = v.as_object_mut().unwrap();
     o.insert("mid2".into(), b.mid_price().map(|m| dec_json(sc.price_out(m) * dec(2))).unwrap_or(Value::from(-1)));
